@@ -19,7 +19,7 @@ EXPLANATION = ('Argument-provenance rule on the font parameter (which call sites
                'Font::scale(), and a flow-sensitive two-point dimension analysis (design units / pixels, scale converts) of the float '
                'arithmetic in the five functions that apply the scale, over every path on which a font is present.  A du/px mix is '
                'exactly what makes positions stop scaling linearly with the font size; the numeric equality itself is not decided.')
-FLOORS = {'FONTFLOW': 8, 'SCALEUSE': 1, 'UNITS': 5}
+FLOORS = {'FONTFLOW': 8, 'SCALEUSE': 2, 'UNITS': 5}
 
 SCALE_READERS = {'graphite2::Slot::finalise', 'graphite2::Segment::justify', 'gr_slot_advance_X', 'gr_slot_advance_Y', 'graphite2::Face::default_glyph_advance'}
 
@@ -70,6 +70,62 @@ def scaleuse(run, fx):
         run.violated('SCALEUSE', 'readers of Font::scale()', '', 'Font::scale() is read by %s; the scale may be applied only in %s' % (sorted(users - SCALE_READERS), sorted(SCALE_READERS)))
 
 
+def ppmflow(run, fx):
+    """"multiplied by P/upem" for EVERY P the API accepts (a float): the pixels-per-em value travels from each gr_make_font* entry to the
+    m_scale initialiser as a floating-point value -- no parameter on the way has an integer type and no floating->integral conversion is
+    applied to it (12.5 ppm must not become 12, 0.75 ppm must not become 0)."""
+    from .cfg import int_type
+    ctors = [f for f in fx.fns_named('graphite2::Font::Font') if not f.f.get('implicit') and len(f.f.get('params') or []) >= 2]
+    inst = 'ppm reaches m_scale as a float'
+    if len(ctors) != 1:
+        run.broken('SCALEUSE', inst, 'Font::Font(ppm, face, ..) not found')
+        return
+    ct = ctors[0]
+    init = [e for _, e in ct.elements() if e['k'] == 'Init' and e.get('field') == 'graphite2::Font::m_scale']
+    if not init or init[0].get('init') is None:
+        run.broken('SCALEUSE', inst, 'the initialiser of Font::m_scale was not found', ct.where())
+        return
+    pvs = {p_['vid']: k for k, p_ in enumerate(ct.f['params'])}
+    used = sorted({pvs[x['vid']] for x in ct.walk(init[0]['init']) if x['k'] == 'DeclRefExpr' and x.get('vid') in pvs and 'Face' not in (ct.f['params'][pvs[x['vid']]].get('t') or '')})
+    if len(used) != 1:
+        run.broken('SCALEUSE', inst, 'cannot tell which constructor parameter is the size (candidates %s)' % used, ct.where())
+        return
+    probs = []
+    chain = [(ct, used[0])]
+    seen = set()
+    while chain:
+        fn, j = chain.pop()
+        if (fn.key, j) in seen:
+            continue
+        seen.add((fn.key, j))
+        p_ = fn.f['params'][j]
+        t = (p_.get('t') or '').replace('const ', '').strip()
+        if t not in ('float', 'double'):
+            probs.append((fn.where(), '%s takes the size as `%s %s`' % (fn.q, p_.get('t'), p_['n'])))
+            continue
+        for _, e in fn.elements():
+            if e['k'].endswith('CastExpr') and e.get('ck') in ('FloatingToIntegral', 'FloatingToBoolean'):
+                src = fn.strip_all_casts(e['c'][0])
+                if src['k'] == 'DeclRefExpr' and src.get('vid') == p_['vid']:
+                    probs.append((fn.loc(e), '%s converts the size `%s` to an integer' % (fn.q, p_['n'])))
+        for cf, ce in callers_of(fx, fn.q):
+            args = ce.get('args') if ce.get('args') is not None else ce.get('c') or []
+            if j >= len(args) or args[j] is None:
+                continue
+            for x in cf.walk(args[j]):
+                if x['k'].endswith('CastExpr') and x.get('ck') in ('FloatingToIntegral', 'FloatingToBoolean'):
+                    probs.append((cf.loc(ce), '%s converts the size to an integer where it calls %s' % (cf.q, fn.q)))
+            a = cf.strip_all_casts(args[j])
+            cpv = {q_['vid']: k for k, q_ in enumerate(cf.f.get('params') or [])}
+            if a['k'] == 'DeclRefExpr' and a.get('vid') in cpv:
+                chain.append((cf, cpv[a['vid']]))
+    if probs:
+        run.violated('SCALEUSE', inst, probs[0][0], '%s: a fractional pixels-per-em value is truncated before the scale factor is computed, so positions are no longer the '
+                     'design-unit values times P/upem for the P the caller passed' % probs[0][1])
+    else:
+        run.held('SCALEUSE', inst, ct.where(), '%d function(s) on the way from the API to m_scale, all take and pass the size as a floating-point value' % len(seen))
+
+
 def units(run, fx):
     targets = [
         ('graphite2::Slot::finalise', {'base': PX, 'bbox': PX, 'clusterMin': PX}, 'font'),
@@ -98,4 +154,5 @@ def run(run):
     fx = run.facts('Q0')
     fontflow(run, fx)
     scaleuse(run, fx)
+    ppmflow(run, fx)
     units(run, fx)
